@@ -38,8 +38,11 @@ class FakeZeroconf:
 
 class FakeAsyncZeroconf:
     created = []
+    fail_next = False
 
     def __init__(self, zc=None):
+        if zc is None and FakeAsyncZeroconf.fail_next:
+            raise OSError(19, "No such device")
         self.zeroconf = zc if zc is not None else FakeZeroconf()
         self.closed = 0
         self.made_by_library = zc is None
@@ -288,7 +291,7 @@ def run(ck: Check):
                 ck.violation("c20:" + why.split(" ")[0] + ":" + why.split(" ")[1], "C20 violated on the implementation: " + why,
                              {"hosts": hosts, "mdns": [str(m) for m in ms], "os": [str(o) for o in osx], "observed": impl[-1]})
         # --- manager ownership: all operation sequences of length <= 5 (quick: <= 4)
-        OPS = ["set:1", "set:2", "get", "close", "lookup:1", "lookup:0"]
+        OPS = ["set:1", "set:2", "get", "close", "lookup:1", "lookup:0", "getfail"]
         L = 5 if thorough else 4
         nseq = 0
         for sup in (None, 1):
@@ -318,6 +321,15 @@ def run(ck: Check):
                                 mgr.set_instance(supplied_obj(int(op[4:]), plain=(k % 2 == 1)))
                             elif op == "get":
                                 mgr.get_async_zeroconf()
+                            elif op == "getfail":
+                                # the library cannot create an instance (no usable interface): nothing may be left behind
+                                FakeAsyncZeroconf.fail_next = mgr._aiozc is None
+                                try:
+                                    mgr.get_async_zeroconf()
+                                except OSError:
+                                    pass
+                                finally:
+                                    FakeAsyncZeroconf.fail_next = False
                             elif op == "close":
                                 fh.loop().run_until_complete(mgr.async_close())
                             else:
